@@ -4,6 +4,7 @@ package main
 // re-checked individually by racing z3-new, z3 4.8.12 and cvc5.
 
 import (
+	"os"
 	"bytes"
 	"context"
 	"fmt"
@@ -103,10 +104,45 @@ func firstLine(s string) string {
 }
 
 // solveAll discharges the obligations of one function.
-func (vc *FuncVC) solveAll(obs []*Oblig, cfg solverCfg) {
+func (vc *FuncVC) solveAll(all []*Oblig, cfg solverCfg) {
+	// cover checks (expected sat) are searched with a short timeout of their own:
+	// finding models under quantifiers is slow and "unknown" only means "not refuted"
+	var obs, covers []*Oblig
+	for _, o := range all {
+		if o.Expect == "sat" {
+			covers = append(covers, o)
+		} else {
+			obs = append(obs, o)
+		}
+	}
+	if len(covers) > 0 {
+		// raced directly (no incremental phase): one model search per cover, all in parallel
+		ccfg := cfg
+		ccfg.timeoutMs = 1500
+		ccfg.thorough = false
+		prelude := vc.w.prelude()
+		var wg sync.WaitGroup
+		sem := make(chan struct{}, cfg.workers)
+		for _, o := range covers {
+			o := o
+			wg.Add(1)
+			go func() {
+				defer wg.Done()
+				sem <- struct{}{}
+				defer func() { <-sem }()
+				vc.race(prelude, vc.decls, o, ccfg)
+			}()
+		}
+		wg.Wait()
+	}
+	vc.solveSet(obs, cfg)
+}
+
+func (vc *FuncVC) solveSet(obs []*Oblig, cfg solverCfg) {
 	if len(obs) == 0 {
 		return
 	}
+	tStart := time.Now()
 	prelude := vc.w.prelude()
 	decls := vc.decls
 	// chunks of contiguous obligations (they share path-condition prefixes)
@@ -159,6 +195,15 @@ func (vc *FuncVC) solveAll(obs []*Oblig, cfg solverCfg) {
 		}()
 	}
 	wg.Wait()
+	if os.Getenv("FLYTVC_TIMING") != "" {
+		n := 0
+		for _, o := range obs {
+			if o.Result != o.Expect {
+				n++
+			}
+		}
+		fmt.Fprintf(os.Stderr, "    [timing] %s: %d obligations in %d chunks, %d to re-race, incremental phase %.2fs\n", vc.name, len(obs), nchunks, n, time.Since(tStart).Seconds())
+	}
 	// re-check everything that did not come back as expected, individually, racing three solvers
 	var redo []*Oblig
 	for _, o := range obs {
